@@ -223,6 +223,9 @@ func (u *c19cService) Exchange(req *dns.Msg) (*dns.Msg, error) {
 	}
 
 	u.mu.Lock()
+	for i, h := range strs {
+		strs[i] = c19Spell(u.rng, h)
+	}
 	u.inflight[qname]++
 	u.total++
 	seen.InFlight, seen.SameQuestionInFlight = u.total, u.inflight[qname]
